@@ -11,7 +11,7 @@ use std::path::{Path, PathBuf};
 use std::time::Duration;
 
 pub const SPELLINGS: [&str; 5] = ["plain", "dot", "dotdot", "symlink", "mixed"];
-pub const LIBS: [&str; 5] = ["none", "dir", "file", "off", "dir+named"];
+pub const LIBS: [&str; 7] = ["none", "dir", "file", "off", "dir+named", "file+named", "two-files-cycle"];
 
 #[derive(Clone, Debug)]
 pub struct Config {
@@ -24,6 +24,17 @@ pub struct Config {
     pub lib: usize,
     /// Some((i, j)): the edge i->j is retargeted to a file that does not exist.
     pub missing: Option<(usize, usize)>,
+    /// Bitmask of the files that include the library file `flib.circom`.
+    pub lib_includers: u32,
+}
+
+impl Config {
+    fn includes_lib(&self, i: usize) -> bool {
+        self.lib != 3 && self.lib_includers >> i & 1 == 1
+    }
+    fn lib_resolves(&self) -> bool {
+        matches!(self.lib, 1 | 2 | 4 | 5 | 6)
+    }
 }
 
 fn spell(spelling: usize, i: usize, j: usize) -> String {
@@ -66,18 +77,18 @@ pub fn build(cfg: &Config, dir: &Path) -> Built {
                 line += 1;
             }
         }
-        if i == 0 && cfg.lib != 3 {
+        if cfg.includes_lib(i) {
             // One extra file that is only reachable through the library.
             text.push_str("include \"flib.circom\";\n");
             if cfg.lib == 0 && failing.is_none() {
-                failing = Some((0, line, "flib.circom".to_string()));
+                failing = Some((i, line, "flib.circom".to_string()));
             }
         }
         text.push_str(&format!("template T{i}() {{\n    signal input in;\n    signal output out;\n    out <-- in;\n"));
         for j in &targets {
             text.push_str(&format!("    component c{j} = T{j}();\n    c{j}.in <== in;\n"));
         }
-        if i == 0 && matches!(cfg.lib, 1 | 2 | 4) {
+        if cfg.includes_lib(i) && cfg.lib_resolves() {
             text.push_str("    component cl = TL();\n    cl.in <== in;\n");
         }
         text.push_str("}\n");
@@ -85,21 +96,29 @@ pub fn build(cfg: &Config, dir: &Path) -> Built {
         let _ = std::os::unix::fs::symlink(format!("f{i}.circom"), dir.join(format!("alias{i}.circom")));
         texts.push(text);
     }
+    let lib_head = if cfg.lib == 6 { "pragma circom 2.1.4;\ninclude \"glib.circom\";\n" } else { "pragma circom 2.1.4;\n" };
     std::fs::write(
         dir.join("libdir/flib.circom"),
-        "pragma circom 2.1.4;\ntemplate TL() {\n    signal input in;\n    signal output out;\n    out <-- in;\n}\n",
+        format!("{lib_head}template TL() {{\n    signal input in;\n    signal output out;\n    out <-- in;\n}}\n"),
+    )
+    .expect("write");
+    std::fs::create_dir_all(dir.join("libdir2")).expect("mkdir");
+    std::fs::write(
+        dir.join("libdir2/glib.circom"),
+        "pragma circom 2.1.4;\ninclude \"flib.circom\";\ntemplate TG() {\n    signal input in;\n    signal output out;\n    out <-- in;\n}\n",
     )
     .expect("write");
     let named: Vec<String> = (0..cfg.n).filter(|i| cfg.named >> i & 1 == 1).map(|i| format!("f{i}.circom")).collect();
     let mut named = named;
-    if cfg.lib == 4 {
+    if cfg.lib == 4 || cfg.lib == 5 {
         // The library file is also named on the command line.
         named.push("libdir/flib.circom".to_string());
     }
     let mut args = named.clone();
     match cfg.lib {
         1 | 4 => args.extend(["-L".to_string(), "libdir".to_string()]),
-        2 => args.extend(["-L".to_string(), "libdir/flib.circom".to_string()]),
+        2 | 5 => args.extend(["-L".to_string(), "libdir/flib.circom".to_string()]),
+        6 => args.extend(["-L".to_string(), "libdir/flib.circom".to_string(), "-L".to_string(), "libdir2/glib.circom".to_string()]),
         _ => {}
     }
     args.extend(["--verbose".to_string(), "--level".to_string(), "warning".to_string()]);
@@ -122,7 +141,7 @@ fn reachable(cfg: &Config) -> BTreeSet<usize> {
 pub fn check(cfg: &Config, dir: &Path, case: &Value) -> Vec<Violation> {
     let mut out = Vec::new();
     let built = build(cfg, dir);
-    let run = run_bin(&BinOpts { args: built.args.clone(), cwd: dir, hash_seed: Some(1), timeout: Duration::from_secs(20), sarif_file: None, mem_limit: None });
+    let run = run_bin(&BinOpts { args: built.args.clone(), cwd: dir, hash_seed: Some(1), timeout: Duration::from_secs(10), sarif_file: None, mem_limit: None });
     let describe = || format!("args {:?}\n{}", built.args, built.texts.iter().enumerate().map(|(i, t)| format!("--- f{i}.circom\n{t}")).collect::<Vec<_>>().join(""));
     let mut push = |sig: String, what: String, expected: String, observed: String| {
         out.push(Violation { signature: sig, what, case: case.clone(), expected, observed });
@@ -144,7 +163,7 @@ pub fn check(cfg: &Config, dir: &Path, case: &Value) -> Vec<Violation> {
     let mut analysed: Vec<String> = run.analyzed.iter().map(|(_, n)| n.clone()).collect();
     analysed.sort();
     let mut expected_analysed: Vec<String> = (0..cfg.n).filter(|i| cfg.named >> i & 1 == 1).map(|i| format!("T{i}")).collect();
-    if cfg.lib == 4 {
+    if cfg.lib == 4 || cfg.lib == 5 {
         expected_analysed.push("TL".to_string());
     }
     expected_analysed.sort();
@@ -174,7 +193,7 @@ pub fn check(cfg: &Config, dir: &Path, case: &Value) -> Vec<Violation> {
     // Included definitions inform the analysis: one CS0018 per instantiated included template.
     for i in (0..cfg.n).filter(|i| cfg.named >> i & 1 == 1) {
         let mut expected = (0..cfg.n).filter(|j| cfg.edges >> (i * cfg.n + j) & 1 == 1 && cfg.missing != Some((i, *j))).count();
-        if i == 0 && matches!(cfg.lib, 1 | 2 | 4) {
+        if cfg.includes_lib(i) && cfg.lib_resolves() {
             expected += 1;
         }
         let file = format!("f{i}.circom");
@@ -225,7 +244,8 @@ pub fn check(cfg: &Config, dir: &Path, case: &Value) -> Vec<Violation> {
     let files: Vec<PathBuf> = built.named.iter().map(|n| dir.join(n)).collect();
     let libs: Vec<PathBuf> = match cfg.lib {
         1 | 4 => vec![dir.join("libdir")],
-        2 => vec![dir.join("libdir/flib.circom")],
+        2 | 5 => vec![dir.join("libdir/flib.circom")],
+        6 => vec![dir.join("libdir/flib.circom"), dir.join("libdir2/glib.circom")],
         _ => vec![],
     };
     if let Ok(loaded) = runner::load(&files, &libs, Curve::Bn254) {
@@ -250,16 +270,15 @@ pub fn check(cfg: &Config, dir: &Path, case: &Value) -> Vec<Violation> {
             );
         }
         let mut expected_files: BTreeSet<String> = reachable(cfg).iter().filter_map(|i| std::fs::canonicalize(dir.join(format!("f{i}.circom"))).ok()).map(|p| p.display().to_string()).collect();
-        if cfg.lib == 4 {
+        let lib_reached = cfg.lib_resolves() && reachable(cfg).iter().any(|i| cfg.includes_lib(*i));
+        if cfg.lib == 4 || cfg.lib == 5 || lib_reached {
             if let Ok(p) = std::fs::canonicalize(dir.join("libdir/flib.circom")) {
                 expected_files.insert(p.display().to_string());
             }
         }
-        if cfg.lib == 1 || cfg.lib == 2 {
-            if reachable(cfg).contains(&0) {
-                if let Ok(p) = std::fs::canonicalize(dir.join("libdir/flib.circom")) {
-                    expected_files.insert(p.display().to_string());
-                }
+        if cfg.lib == 6 && lib_reached {
+            if let Ok(p) = std::fs::canonicalize(dir.join("libdir2/glib.circom")) {
+                expected_files.insert(p.display().to_string());
             }
         }
         let got: BTreeSet<String> = dedup.into_iter().collect();
@@ -285,15 +304,26 @@ pub fn configs(tier: Tier) -> Vec<Config> {
                         continue;
                     }
                     // library configurations on a slice of the graphs in quick, all in thorough
-                    let libs: Vec<usize> = if tier == Tier::Thorough || edges % 8 == 3 { vec![3, 0, 1, 2, 4] } else { vec![3] };
+                    let libs: Vec<usize> = if tier == Tier::Thorough || edges % 8 == 3 { vec![3, 0, 1, 2, 4, 5, 6] } else { vec![3] };
                     for lib in libs {
-                        v.push(Config { n, edges, spelling, named, lib, missing: None });
+                        // Which files include the library file: only f0, or (for resolvable
+                        // configurations) every subset in thorough / all files in quick.
+                        let masks: Vec<u32> = if lib == 3 || lib == 0 {
+                            vec![1]
+                        } else if tier == Tier::Thorough {
+                            (1..(1u32 << n)).collect()
+                        } else {
+                            vec![1, (1u32 << n) - 1]
+                        };
+                        for lib_includers in masks {
+                            v.push(Config { n, edges, spelling, named, lib, missing: None, lib_includers });
+                        }
                     }
                 }
                 // one edge retargeted to a missing file (first edge of the graph)
                 if let Some(bit) = (0..(n * n)).find(|b| edges >> b & 1 == 1) {
                     if tier == Tier::Thorough || edges % 4 == 1 {
-                        v.push(Config { n, edges, spelling: 0, named, lib: 3, missing: Some((bit / n, bit % n)) });
+                        v.push(Config { n, edges, spelling: 0, named, lib: 3, missing: Some((bit / n, bit % n)), lib_includers: 1 });
                     }
                 }
             }
@@ -303,7 +333,7 @@ pub fn configs(tier: Tier) -> Vec<Config> {
 }
 
 fn case_of(c: &Config) -> Value {
-    json!({"kind": "includes", "n": c.n, "edges": c.edges, "spelling": c.spelling, "named": c.named, "lib": c.lib,
+    json!({"kind": "includes", "n": c.n, "edges": c.edges, "spelling": c.spelling, "named": c.named, "lib": c.lib, "lib_includers": c.lib_includers,
         "missing": c.missing.map(|(i, j)| vec![i, j])})
 }
 
@@ -320,6 +350,9 @@ pub fn run(run: &Run) {
     let root = work_dir("c19");
     par_each(&all, |i, cfg| {
         let case = case_of(cfg);
+        if run.too_many_hangs() {
+            return;
+        }
         run.watch(&case);
         let dir = root.join(format!("g{i}"));
         let vs = check(cfg, &dir, &case);
@@ -350,6 +383,7 @@ pub fn replay(case: &Value) -> Vec<Violation> {
         named: case["named"].as_u64().unwrap_or(1) as u32,
         lib: case["lib"].as_u64().unwrap_or(3) as usize,
         missing: case["missing"].as_array().map(|a| (a[0].as_u64().unwrap_or(0) as usize, a[1].as_u64().unwrap_or(0) as usize)),
+        lib_includers: case["lib_includers"].as_u64().unwrap_or(1) as u32,
     };
     let root = work_dir("c19-replay");
     let out = check(&cfg, &root, case);
